@@ -58,6 +58,7 @@ type interpreter struct {
 	extCache     map[*ssa.Function]extEntry2
 	infoCache    map[*ssa.Function]*funcInfo
 	setupDone    map[string]bool
+	codecs       map[*value]*codecState
 	mapOrderMode bool
 	mapOrderMax  int
 	permCnt      int
